@@ -38,6 +38,7 @@ inductive Lax where
   | callWithoutSingleResult         -- a call without results used as a value
   | untypedOperands                 -- two untyped operands, an untyped shifted operand: outside what the fragment describes
   | constantDivisorNotNumeric       -- string / boolean / nil divisor: Go panic in zeroConst
+  | receiveRetypesDestination       -- `var v T = <-c`: the variable takes the channel's element type instead of T (later uses of v as a T are rejected)
   | interfaceOperand                -- an interface operand "equals" any type with its methods: arithmetic / comparison accepted
   | other
   deriving DecidableEq, Repr, Inhabited
@@ -63,6 +64,7 @@ def Lax.name : Lax → String
   | .callWithoutSingleResult => "call-without-single-result"
   | .untypedOperands => "untyped-operands"
   | .constantDivisorNotNumeric => "constant-divisor-not-numeric"
+  | .receiveRetypesDestination => "receive-retypes-destination"
   | .interfaceOperand => "interface-operand"
   | .other => "other"
 
@@ -221,6 +223,7 @@ def classifyConv (t : Ty) (x : Opnd) : Lax :=
   match x.sh with
   | .nil => .nilAsValue
   | .tc _ _ => .typedConstantOperand
+  | .tv v => if v.isIface && !t.isIface then .interfaceToConcrete else .sameReflectType
   | _ => classifyAssign x t
 
 def firstSome {α β : Type} (f : α → Option β) : List α → Option β
@@ -256,6 +259,8 @@ def classifyRet (T : TcFacts) (results : List STy) (vals : List (Shape × Opnd))
 def classifyAssignStmt (sh : Shape) (t : Ty) (x : Opnd) : Lax :=
   match sh with
   | .plain | .arith .land | .arith .lor => classifyAssign x t
+  | .recv => if assignableG x t && x.ty != t then .receiveRetypesDestination
+             else if assignableG x t then classifyAssign x t else .destinationTypePropagated
   | _ => if assignableG x t then classifyAssign x t else .destinationTypePropagated
 
 def classifySend (c _v : Opnd) : Lax :=
@@ -321,8 +326,8 @@ mutual
   def domS (T : TcFacts) (env : Env) : Stmt → DR (List Ty)
     | .decl t e => do
       let x ← domE T env (zoneOf t) e
-      let _ ← site (assignY T true (shapeOf e x) t x) (assignG true (shapeOf e x) t x) (classifyAssignStmt (shapeOf e x) t x)
-      .ok (env.vars ++ [t])
+      let t' ← site (assignY T true (shapeOf e x) t x) (assignG true (shapeOf e x) t x) (classifyAssignStmt (shapeOf e x) t x)
+      .ok (env.vars ++ [t'])
     | .declz t => .ok (env.vars ++ [t])
     | .define e => do
       let x ← domE T env none e
@@ -332,8 +337,8 @@ mutual
       | none => .stop
       | some t => do
         let x ← domE T env (zoneOf t) e
-        let _ ← site (assignY T false (shapeOf e x) t x) (assignG false (shapeOf e x) t x) (classifyAssignStmt (shapeOf e x) t x)
-        .ok env.vars
+        let t' ← site (assignY T false (shapeOf e x) t x) (assignG false (shapeOf e x) t x) (classifyAssignStmt (shapeOf e x) t x)
+        .ok (env.vars.set i t')
     | .opassign op i e => match env.vars[i]? with
       | none => .stop
       | some t => do
